@@ -56,6 +56,21 @@ def writeCalls (c : Codec) (p : Pkt) : List Bytes :=
   else if (wireBody c p).isEmpty then [[UInt8.ofNat t], be32 (wireBody c p).length]
   else [[UInt8.ofNat t], be32 (wireBody c p).length, wireBody c p]
 
+/-! ### Concurrent writers
+
+`WritePacket` holds `writeLock` from before its first `writer.Write` until after its last one
+(skeleton pin `skel_WritePacket_lock` in Props), so concurrent callers on one `StreamProcessor` are
+serialised: the wire carries whole packet encodings in the order the lock was acquired. -/
+
+/-- `threads`: what each writer goroutine writes, in its own order; `sched`: who acquires `writeLock`
+next.  Returns the packets in lock-acquisition order (a scheduled thread with nothing left is skipped). -/
+def serialize : List (List Pkt) → List Nat → List Pkt
+  | _, [] => []
+  | threads, t :: sched =>
+    match threads[t]? with
+    | some (p :: rest) => p :: serialize (threads.set t rest) sched
+    | _ => serialize threads sched
+
 /-- Stage at which `ReadPacket` failed. -/
 inductive RErr where
   | type        -- error/EOF while reading the type byte
